@@ -1,4 +1,4 @@
-(* Proofs about the inheritance model (Inherit.v). *)
+(* Proofs about the inheritance model (Inherit.v), including the blank-body rule. *)
 From Coq Require Import ZArith List Bool Lia ZifyBool Arith.
 From LiquidVerif Require Import Prelude PyPrims Inherit.
 Import ListNotations.
@@ -8,7 +8,7 @@ Section NodeInd.
   Variable P : node -> Prop.
   Hypothesis HText : forall s, P (Text s).
   Hypothesis HVar : forall x, P (Var x).
-  Hypothesis HSuper : P Super.
+  Hypothesis HSuper : forall up, P (Super up).
   Hypothesis HBlock : forall name req en body, Forall P body -> P (Block name req en body).
   Hypothesis HFor : forall x items body, Forall P body -> P (For x items body).
 
@@ -16,7 +16,7 @@ Section NodeInd.
     match n with
     | Text s => HText s
     | Var x => HVar x
-    | Super => HSuper
+    | Super up => HSuper up
     | Block name req en body =>
         HBlock name req en body
           ((fix go (l : list node) : Forall P l :=
@@ -52,6 +52,12 @@ Proof.
   destruct (seq_res f l); simpl; congruence.
 Qed.
 
+Lemma post_not_oof up r : r <> OutOfFuel -> post up r <> OutOfFuel.
+Proof. destruct up, r; cbn; congruence. Qed.
+
+Lemma wrap_not_oof b r : r <> OutOfFuel -> wrap b r <> OutOfFuel.
+Proof. destruct b, r; cbn; congruence. Qed.
+
 (* --------------------------------------------------------------------------- fuel: OutOfFuel is excluded *)
 (* Every jump to another body either deepens the copy depth (bounded by L), or pushes on the scope of the context a
    block.super renders in (bounded by L), so the number of nested jumps is bounded by a function of L alone. *)
@@ -82,13 +88,14 @@ Proof. intro H. unfold key. lia. Qed.
 Lemma key_mono_s L d s s' : s <= s' -> key L d s' <= key L d s.
 Proof. intro H. unfold key. lia. Qed.
 
-Lemma exec_node_fuel L st f :
-  (forall c body, wf_ctx L c -> phi L c < f -> exec f L st c body <> OutOfFuel) ->
-  forall n c, wf_ctx L c -> phi L c < S f -> exec_node L st (exec f L st) c n <> OutOfFuel.
+Lemma exec_node_fuel sup nb L st f :
+  (forall c body, wf_ctx L c -> phi L c < f -> exec_body f sup nb L st c body <> OutOfFuel) ->
+  forall n c, wf_ctx L c -> phi L c < S f -> exec_node sup nb L st (exec_body f sup nb L st) c n <> OutOfFuel.
 Proof.
-  intros IHf. induction n as [s|x| |name req en body IHb|x items body IHb] using node_ind'; intros c Hwf Hphi;
+  intros IHf. induction n as [s|x|up|name req en body IHb|x items body IHb] using node_ind'; intros c Hwf Hphi;
     cbn [exec_node]; try discriminate.
   - (* Super *)
+    apply post_not_oof.
     unfold phi, wf_ctx in *. destruct (c_block c) as [[e s d ps|ps]|] eqn:Hb; try discriminate.
     + destruct ps as [|p rest]; [discriminate|]. destruct (L <? s) eqn:Hs; [discriminate|].
       apply IHf; unfold wf_ctx, phi; cbn; auto.
@@ -114,7 +121,7 @@ Proof.
       * lia.
   - (* For *)
     destruct items as [|v0 items]; [discriminate|]. destruct (L <? c_s c) eqn:Hs; [discriminate|].
-    apply seq_res_not_oof. apply Forall_forall. intros v _.
+    apply seq_res_not_oof. apply Forall_forall. intros v _. apply wrap_not_oof.
     apply seq_res_not_oof. rewrite Forall_forall in *. intros m Hm.
     apply (IHb m Hm).
     + unfold wf_ctx in *; cbn. exact Hwf.
@@ -123,11 +130,19 @@ Proof.
       * pose proof (key_mono_s L (c_d c) (c_s c) (S (c_s c)) ltac:(lia)). lia.
 Qed.
 
-Lemma exec_fuel L st : forall fuel c body, wf_ctx L c -> phi L c < fuel -> exec fuel L st c body <> OutOfFuel.
+Lemma exec_body_fuel sup nb L st :
+  forall fuel c body, wf_ctx L c -> phi L c < fuel -> exec_body fuel sup nb L st c body <> OutOfFuel.
 Proof.
   induction fuel as [|f IH]; intros c body Hwf Hphi; [lia|].
-  cbn [exec]. unfold exec_nodes. apply seq_res_not_oof. apply Forall_forall. intros n _.
+  cbn [exec_body]. apply wrap_not_oof. unfold exec_nodes. apply seq_res_not_oof. apply Forall_forall. intros n _.
   apply exec_node_fuel; auto.
+Qed.
+
+Lemma exec_fuel sup nb L st : forall fuel c body, wf_ctx L c -> phi L c < fuel -> exec fuel sup nb L st c body <> OutOfFuel.
+Proof.
+  intros [|f] c body Hwf Hphi; [lia|].
+  cbn [exec]. unfold exec_nodes. apply seq_res_not_oof. apply Forall_forall. intros n _.
+  apply exec_node_fuel; auto. intros; now apply exec_body_fuel.
 Qed.
 
 (* the while loop of _build_block_stacks ends: `seen` grows by a new loader key on every round *)
@@ -153,16 +168,16 @@ Qed.
 Lemma fuel_bound_phi L s : phi L {| c_env := []; c_s := s; c_d := 0; c_block := None |} < fuel_bound L.
 Proof. unfold phi, fuel_bound, key; cbn. nia. Qed.
 
-Theorem render_template_fuel L ld data t fuel :
-  fuel_bound L <= fuel -> render_template fuel L ld data t <> OutOfFuel.
+Theorem render_template_fuel sup nb L ld data t fuel :
+  fuel_bound L <= fuel -> render_template fuel sup nb L ld data t <> OutOfFuel.
 Proof.
   intro Hf. unfold render_template.
   destruct (L <? 4); [discriminate|]. destruct (split_extends t) as [pre ext].
-  destruct (exec fuel L [] _ pre) as [a|e|] eqn:H1; cbn [bind]; try discriminate.
+  destruct (exec fuel sup nb L [] _ pre) as [a|e|] eqn:H1; cbn [bind]; try discriminate.
   - destruct ext; [|discriminate].
     destruct (build _ ld [] [] t) as [[base st]|e|] eqn:H2; cbn [bind]; try discriminate.
     + destruct (L <? 5); [discriminate|].
-      destruct (exec fuel L st _ (tnodes base)) as [b|e|] eqn:H3; cbn [bind]; try discriminate.
+      destruct (exec fuel sup nb L st _ (tnodes base)) as [b|e|] eqn:H3; cbn [bind]; try discriminate.
       exfalso. revert H3. apply exec_fuel; [exact I|].
       pose proof (fuel_bound_phi L 6). unfold phi in *; cbn in *. lia.
     + exfalso. revert H2. apply build_fuel; [constructor | intros q [] | simpl; lia].
@@ -170,8 +185,8 @@ Proof.
     pose proof (fuel_bound_phi L 5). unfold phi in *; cbn in *. lia.
 Qed.
 
-Theorem render_model_fuel L ld leaf data fuel :
-  fuel_bound L <= fuel -> render_model fuel L ld leaf data <> OutOfFuel.
+Theorem render_model_fuel sup nb L ld leaf data fuel :
+  fuel_bound L <= fuel -> render_model fuel sup nb L ld leaf data <> OutOfFuel.
 Proof.
   intro Hf. unfold render_model, load. destruct (alookup leaf ld) as [t|]; cbn [bind]; [|discriminate].
   destruct (parse_ok t); cbn [bind]; [|discriminate].
@@ -226,10 +241,10 @@ Proof.
   intro H. rewrite (IH H). reflexivity.
 Qed.
 
-Theorem cycle_rejected fuel L ld data t a :
+Theorem cycle_rejected fuel sup nb L ld data t a :
   endless_chain ld t -> 4 <= L ->
-  exec fuel L [] {| c_env := data; c_s := 5; c_d := 0; c_block := None |} (fst (split_extends t)) = Ok a ->
-  render_template fuel L ld data t = Err EInherit.
+  exec fuel sup nb L [] {| c_env := data; c_s := 5; c_d := 0; c_block := None |} (fst (split_extends t)) = Ok a ->
+  render_template fuel sup nb L ld data t = Err EInherit.
 Proof.
   intros (Q & Ht & HQ) HL Hpre. unfold render_template.
   destruct (L <? 4) eqn:E; [lia|].
@@ -399,6 +414,26 @@ Proof.
   - subst r. exfalso. apply (proj1 Hg). reflexivity.
 Qed.
 
+Lemma wrap_sim b X Y r :
+  (forall r', X = r' -> good r' -> Y = r') -> wrap b X = r -> good r -> wrap b Y = r.
+Proof.
+  intros H Hr Hg. destruct b; cbn [wrap] in *; [|auto].
+  unfold discard in *. destruct X as [x|e|]; cbn [bind] in Hr.
+  - rewrite (H (Ok x) eq_refl) by (split; discriminate). exact Hr.
+  - rewrite (H (Err e) eq_refl); [exact Hr|]. subst r. exact Hg.
+  - subst r. exfalso. apply (proj1 Hg). reflexivity.
+Qed.
+
+Lemma post_sim up X Y r :
+  (forall r', X = r' -> good r' -> Y = r') -> post up X = r -> good r -> post up Y = r.
+Proof.
+  intros H Hr Hg. destruct up; cbn [post] in *; [|auto].
+  destruct X as [x|e|]; cbn [bind] in Hr.
+  - rewrite (H (Ok x) eq_refl) by (split; discriminate). exact Hr.
+  - rewrite (H (Err e) eq_refl); [exact Hr|]. subst r. exact Hg.
+  - subst r. exfalso. apply (proj1 Hg). reflexivity.
+Qed.
+
 Definition parents_of (h : handle) : list item := match h with HSite _ _ _ ps => ps | HCur ps => ps end.
 
 Definition Rh (h : option handle) (cur : option scur) : Prop :=
@@ -422,21 +457,24 @@ Ltac solveR :=
          | cbn; repeat split; auto; try reflexivity; try (destruct (items_from _ _); exact I)].
 
 Section Sim.
+  Variable sup : bool.
+  Variable nb : node -> bool.
   Variable L : nat.
   Variable st : stacks.
   Variable chain : list template.
   Hypothesis SC : forall name, slookup name st = items_from chain name.
 
   Lemma sim_node f :
-    (forall c sc body r, R c sc -> exec f L st c body = r -> good r -> spec_exec f chain sc body = r) ->
-    forall n c sc r, R c sc -> exec_node L st (exec f L st) c n = r -> good r ->
-                     spec_node chain (spec_exec f chain) sc n = r.
+    (forall c sc body r, R c sc -> exec_body f sup nb L st c body = r -> good r -> spec_body f sup nb chain sc body = r) ->
+    forall n c sc r, R c sc -> exec_node sup nb L st (exec_body f sup nb L st) c n = r -> good r ->
+                     spec_node sup nb chain (spec_body f sup nb chain) sc n = r.
   Proof.
-    intro IHf. induction n as [s|x| |name req en body IHb|x items body IHb] using node_ind';
+    intro IHf. induction n as [s|x|up|name req en body IHb|x items body IHb] using node_ind';
       intros c sc r [Henv Hblk] Hr Hg; cbn [exec_node spec_node] in *.
     - exact Hr.
     - rewrite <- Henv. exact Hr.
     - (* Super *)
+      revert Hr Hg. apply post_sim. clear r. intros r Hr Hg.
       unfold Rh in Hblk. destruct (c_block c) as [h|], (sc_cur sc) as [cur|]; try contradiction; [|exact Hr].
       destruct Hblk as [Hps Hsite].
       pose proof (first_def_items (sc_above cur) (sc_name cur)) as Hfd.
@@ -469,18 +507,28 @@ Section Sim.
     - (* For *)
       destruct items as [|v0 items]; [exact Hr|].
       destruct (L <? c_s c); [subst r; exfalso; apply (proj2 Hg); reflexivity|].
-      revert r Hr Hg. apply seq_res_sim. apply Forall_forall. intros v _.
-      apply seq_res_sim. rewrite Forall_forall in *. intros m Hm r Hr Hg.
+      revert r Hr Hg. apply seq_res_sim. apply Forall_forall. intros v _ r Hr Hg.
+      revert Hr Hg. apply wrap_sim.
+      apply seq_res_sim. rewrite Forall_forall in *. intros m Hm r' Hr Hg.
       eapply (IHb m Hm); [|exact Hr|exact Hg]. split; cbn; [congruence | exact Hblk].
   Qed.
 
-  Lemma sim : forall fuel c sc body r,
-    R c sc -> exec fuel L st c body = r -> good r -> spec_exec fuel chain sc body = r.
+  Lemma sim_body : forall fuel c sc body r,
+    R c sc -> exec_body fuel sup nb L st c body = r -> good r -> spec_body fuel sup nb chain sc body = r.
   Proof.
     induction fuel as [|f IH]; intros c sc body r HR Hr Hg; [subst r; exfalso; apply (proj1 Hg); reflexivity|].
+    cbn [exec_body spec_body] in *. unfold exec_nodes in Hr. revert Hr Hg. apply wrap_sim.
+    apply seq_res_sim. apply Forall_forall. intros n _ r' Hr Hg.
+    eapply sim_node; eauto.
+  Qed.
+
+  Lemma sim : forall fuel c sc body r,
+    R c sc -> exec fuel sup nb L st c body = r -> good r -> spec_exec fuel sup nb chain sc body = r.
+  Proof.
+    intros [|f] c sc body r HR Hr Hg; [subst r; exfalso; apply (proj1 Hg); reflexivity|].
     cbn [exec spec_exec] in *. unfold exec_nodes in Hr. revert r Hr Hg.
     apply seq_res_sim. apply Forall_forall. intros n _ r Hr Hg.
-    eapply sim_node; eauto.
+    eapply sim_node; eauto. intros; eapply sim_body; eauto.
   Qed.
 End Sim.
 
@@ -499,10 +547,10 @@ Proof.
 Qed.
 
 (* chains of at least two templates: the rendered result is the documented one *)
-Theorem model_is_spec_chain fuel L ld leaf t chain data :
+Theorem model_is_spec_chain fuel sup nb L ld leaf t chain data :
   alookup leaf ld = Some t -> chain_from ld t chain -> 2 <= length chain ->
-  good (render_model fuel L ld leaf data) ->
-  render_spec fuel chain data = render_model fuel L ld leaf data.
+  good (render_model fuel sup nb L ld leaf data) ->
+  render_spec fuel sup nb chain data = render_model fuel sup nb L ld leaf data.
 Proof.
   intros Hl Hc Hlen Hg. destruct (chain_from_head _ _ _ Hc) as [parents ->].
   unfold render_model, load in *. rewrite Hl in *. unfold render_spec.
@@ -513,10 +561,10 @@ Proof.
   pose proof (split_extends_true t ltac:(congruence)) as Hs.
   destruct (split_extends t) as [pre ext]. cbn [fst snd] in *. subst ext.
   set (c5 := {| c_env := data; c_s := 5; c_d := 0; c_block := None |}) in *.
-  destruct (exec fuel L [] c5 pre) as [a|e|] eqn:Hpre; cbn [bind] in Hg |- *.
-  2: { rewrite (sim L [] [] (fun _ => eq_refl) fuel c5 _ pre (Err e) (R_top data) Hpre Hg). reflexivity. }
+  destruct (exec fuel sup nb L [] c5 pre) as [a|e|] eqn:Hpre; cbn [bind] in Hg |- *.
+  2: { rewrite (sim sup nb L [] [] (fun _ => eq_refl) fuel c5 _ pre (Err e) (R_top data) Hpre Hg). reflexivity. }
   2: { exfalso; apply (proj1 Hg); reflexivity. }
-  rewrite (sim L [] [] (fun _ => eq_refl) fuel c5 _ pre (Ok a) (R_top data) Hpre) by (split; discriminate).
+  rewrite (sim sup nb L [] [] (fun _ => eq_refl) fuel c5 _ pre (Ok a) (R_top data) Hpre) by (split; discriminate).
   cbn [bind]. rewrite (existsb_template_bad t (t1 :: parents) Hp).
   assert (Hseen : seen_ok ld [] (length (t :: t1 :: parents))) by (intros q []).
   destruct (build_chain ld t _ Hc (S (S (length ld))) [] [] Hseen) as [H|[[Hb H]|[Hb (st' & H & Hst)]]].
@@ -526,17 +574,17 @@ Proof.
     destruct (L <? 5); [exfalso; apply (proj2 Hg); reflexivity|].
     set (c6 := {| c_env := data; c_s := 6; c_d := 0; c_block := None |}) in *.
     assert (HR6 : R c6 {| sc_env := data; sc_cur := None |}) by (split; exact I || reflexivity).
-    destruct (exec fuel L st' c6 (tnodes (last (t :: t1 :: parents) t))) as [b|e|] eqn:Hb2; cbn [bind] in Hg |- *.
-    + rewrite (sim L st' _ Hst fuel c6 _ _ (Ok b) HR6 Hb2) by (split; discriminate). reflexivity.
-    + rewrite (sim L st' _ Hst fuel c6 _ _ (Err e) HR6 Hb2 Hg). reflexivity.
+    destruct (exec fuel sup nb L st' c6 (tnodes (last (t :: t1 :: parents) t))) as [b|e|] eqn:Hb2; cbn [bind] in Hg |- *.
+    + rewrite (sim sup nb L st' _ Hst fuel c6 _ _ (Ok b) HR6 Hb2) by (split; discriminate). reflexivity.
+    + rewrite (sim sup nb L st' _ Hst fuel c6 _ _ (Err e) HR6 Hb2 Hg). reflexivity.
     + exfalso; apply (proj1 Hg); reflexivity.
 Qed.
 
 (* a template without extends, with unique block names *)
-Theorem model_is_spec_standalone fuel L ld leaf t data :
+Theorem model_is_spec_standalone fuel sup nb L ld leaf t data :
   alookup leaf ld = Some t -> textends t = [] -> dup_bad t = false ->
-  good (render_model fuel L ld leaf data) ->
-  render_spec fuel [t] data = render_model fuel L ld leaf data.
+  good (render_model fuel sup nb L ld leaf data) ->
+  render_spec fuel sup nb [t] data = render_model fuel sup nb L ld leaf data.
 Proof.
   intros Hl Hext Hd Hg. unfold render_model, load in *. rewrite Hl in *. unfold render_spec, template_bad.
   fold (dup_bad t). rewrite Hd.
@@ -544,19 +592,19 @@ Proof.
   unfold render_template in *. destruct (L <? 4); [exfalso; apply (proj2 Hg); reflexivity|].
   rewrite (split_extends_none t Hext) in *.
   set (c5 := {| c_env := data; c_s := 5; c_d := 0; c_block := None |}) in *.
-  destruct (exec fuel L [] c5 (tnodes t)) as [a|e|] eqn:Hpre; cbn [bind] in Hg |- *.
-  - apply (sim L [] [] (fun _ => eq_refl) fuel c5 _ _ (Ok a) (R_top data) Hpre). split; discriminate.
-  - apply (sim L [] [] (fun _ => eq_refl) fuel c5 _ _ (Err e) (R_top data) Hpre Hg).
+  destruct (exec fuel sup nb L [] c5 (tnodes t)) as [a|e|] eqn:Hpre; cbn [bind] in Hg |- *.
+  - apply (sim sup nb L [] [] (fun _ => eq_refl) fuel c5 _ _ (Ok a) (R_top data) Hpre). split; discriminate.
+  - apply (sim sup nb L [] [] (fun _ => eq_refl) fuel c5 _ _ (Err e) (R_top data) Hpre Hg).
   - exfalso; apply (proj1 Hg); reflexivity.
 Qed.
 
 (* ---------------------------------------------------------------------------------- required blocks *)
 (* whenever a block tag is reached while a chain is in effect and the most-derived definition of its name carries
    `required`, RequiredBlockError is raised -- whatever the tag itself says *)
-Theorem required_not_overridden L st chain jump c name req en body b above :
+Theorem required_not_overridden sup nb L st chain jump c name req en body b above :
   (forall n, slookup n st = items_from chain n) ->
   first_def chain name = Some (b, above) -> bd_required b = true ->
-  exec_node L st jump c (Block name req en body) = Err ERequiredBlock.
+  exec_node sup nb L st jump c (Block name req en body) = Err ERequiredBlock.
 Proof.
   intros SC Hfd Hreq. cbn [exec_node]. rewrite SC.
   pose proof (first_def_items chain name) as H. rewrite Hfd in H. rewrite H.
@@ -564,18 +612,18 @@ Proof.
 Qed.
 
 (* ... and a required block of a template rendered on its own *)
-Theorem required_standalone L jump c name en body :
-  exec_node L [] jump c (Block name true en body) = Err ERequiredBlock.
+Theorem required_standalone sup nb L jump c name en body :
+  exec_node sup nb L [] jump c (Block name true en body) = Err ERequiredBlock.
 Proof. reflexivity. Qed.
 
-Lemma render_template_chain fuel L ld data t chain a :
+Lemma render_template_chain fuel sup nb L ld data t chain a :
   chain_from ld t chain -> 2 <= length chain -> 4 <= L ->
-  exec fuel L [] {| c_env := data; c_s := 5; c_d := 0; c_block := None |} (fst (split_extends t)) = Ok a ->
-  (chain_bad chain = true /\ render_template fuel L ld data t = Err EInherit) \/
+  exec fuel sup nb L [] {| c_env := data; c_s := 5; c_d := 0; c_block := None |} (fst (split_extends t)) = Ok a ->
+  (chain_bad chain = true /\ render_template fuel sup nb L ld data t = Err EInherit) \/
   (chain_bad chain = false /\ exists st, (forall n, slookup n st = items_from chain n) /\
-     render_template fuel L ld data t =
+     render_template fuel sup nb L ld data t =
      if L <? 5 then Err EContextDepth
-     else do b <- exec fuel L st {| c_env := data; c_s := 6; c_d := 0; c_block := None |} (tnodes (last chain t));
+     else do b <- exec fuel sup nb L st {| c_env := data; c_s := 6; c_d := 0; c_block := None |} (tnodes (last chain t));
           Ok (a ++ b)).
 Proof.
   intros Hc Hlen HL Hpre. unfold render_template. destruct (L <? 4) eqn:E4; [lia|].
@@ -590,31 +638,31 @@ Proof.
   - right. split; [exact Hb|]. exists st'. split; [exact Hst|]. rewrite H. reflexivity.
 Qed.
 
-Theorem required_top fuel L ld data t chain a name req en body sfx b above :
+Theorem required_top fuel sup nb L ld data t chain a name req en body sfx b above :
   chain_from ld t chain -> 2 <= length chain -> 5 <= L -> chain_bad chain = false ->
-  exec (S fuel) L [] {| c_env := data; c_s := 5; c_d := 0; c_block := None |} (fst (split_extends t)) = Ok a ->
+  exec (S fuel) sup nb L [] {| c_env := data; c_s := 5; c_d := 0; c_block := None |} (fst (split_extends t)) = Ok a ->
   tnodes (last chain t) = Block name req en body :: sfx ->
   first_def chain name = Some (b, above) -> bd_required b = true ->
-  render_template (S fuel) L ld data t = Err ERequiredBlock.
+  render_template (S fuel) sup nb L ld data t = Err ERequiredBlock.
 Proof.
   intros Hc Hlen HL Hbad Hpre Hroot Hfd Hreq.
-  destruct (render_template_chain (S fuel) L ld data t chain a Hc Hlen ltac:(lia) Hpre) as [[Hb _]|[_ (st & SC & ->)]]; [congruence|].
+  destruct (render_template_chain (S fuel) sup nb L ld data t chain a Hc Hlen ltac:(lia) Hpre) as [[Hb _]|[_ (st & SC & ->)]]; [congruence|].
   destruct (L <? 5) eqn:E5; [lia|]. rewrite Hroot. cbn [exec]. unfold exec_nodes. rewrite seq_res_cons.
-  rewrite (required_not_overridden L st chain _ _ name req en body b above SC Hfd Hreq). reflexivity.
+  rewrite (required_not_overridden sup nb L st chain _ _ name req en body b above SC Hfd Hreq). reflexivity.
 Qed.
 
 (* ------------------------------------------------------- duplicate names / mismatched endblock in a chain *)
-Theorem chain_rejected fuel L ld data t chain a :
+Theorem chain_rejected fuel sup nb L ld data t chain a :
   chain_from ld t chain -> 2 <= length chain -> 4 <= L -> chain_bad chain = true ->
-  exec fuel L [] {| c_env := data; c_s := 5; c_d := 0; c_block := None |} (fst (split_extends t)) = Ok a ->
-  render_template fuel L ld data t = Err EInherit.
+  exec fuel sup nb L [] {| c_env := data; c_s := 5; c_d := 0; c_block := None |} (fst (split_extends t)) = Ok a ->
+  render_template fuel sup nb L ld data t = Err EInherit.
 Proof.
   intros Hc Hlen HL Hbad Hpre.
-  destruct (render_template_chain fuel L ld data t chain a Hc Hlen HL Hpre) as [[_ H]|[Hb _]]; [exact H | congruence].
+  destruct (render_template_chain fuel sup nb L ld data t chain a Hc Hlen HL Hpre) as [[_ H]|[Hb _]]; [exact H | congruence].
 Qed.
 
-Theorem leaf_endblock_mismatch fuel L ld leaf t data :
-  alookup leaf ld = Some t -> parse_ok t = false -> render_model fuel L ld leaf data = Err EInherit.
+Theorem leaf_endblock_mismatch fuel sup nb L ld leaf t data :
+  alookup leaf ld = Some t -> parse_ok t = false -> render_model fuel sup nb L ld leaf data = Err EInherit.
 Proof. intros Hl Hp. unfold render_model, load. rewrite Hl, Hp. reflexivity. Qed.
 
 (* what parse_ok and dup_bad mean *)
@@ -635,14 +683,14 @@ Proof. unfold textends. apply flat_map_app. Qed.
 Lemma split_extends_pre pn p post : split_extends (map TNode pn ++ TExtends p :: post) = (pn, true).
 Proof. induction pn as [|n pn IH]; cbn; [reflexivity|]. rewrite IH. reflexivity. Qed.
 
-Theorem after_extends_ignored fuel L ld data pn p post post' :
+Theorem after_extends_ignored fuel sup nb L ld data pn p post post' :
   tblocks post = tblocks post' -> textends post = textends post' ->
-  render_template fuel L ld data (map TNode pn ++ TExtends p :: post) =
-  render_template fuel L ld data (map TNode pn ++ TExtends p :: post').
+  render_template fuel sup nb L ld data (map TNode pn ++ TExtends p :: post) =
+  render_template fuel sup nb L ld data (map TNode pn ++ TExtends p :: post').
 Proof.
   intros Hb He. unfold render_template. rewrite !split_extends_pre.
   destruct (L <? 4); [reflexivity|].
-  destruct (exec fuel L [] _ pn); cbn [bind]; try reflexivity.
+  destruct (exec fuel sup nb L [] _ pn); cbn [bind]; try reflexivity.
   assert (Hbuild : build (S (S (length ld))) ld [] [] (map TNode pn ++ TExtends p :: post) =
                    build (S (S (length ld))) ld [] [] (map TNode pn ++ TExtends p :: post')).
   { cbn [build]. unfold stack_blocks.
@@ -672,44 +720,194 @@ Proof.
   - subst r; exfalso; apply Hg; reflexivity.
 Qed.
 
-Lemma spec_node_mono chain f f' :
-  (forall c body r, spec_exec f chain c body = r -> r <> OutOfFuel -> spec_exec f' chain c body = r) ->
-  forall n c r, spec_node chain (spec_exec f chain) c n = r -> r <> OutOfFuel ->
-                spec_node chain (spec_exec f' chain) c n = r.
+Lemma wrap_mono b X Y r :
+  (forall r', X = r' -> r' <> OutOfFuel -> Y = r') -> wrap b X = r -> r <> OutOfFuel -> wrap b Y = r.
 Proof.
-  intro IHf. induction n as [s|x| |name req en body IHb|x items body IHb] using node_ind'; intros c r Hr Hg;
+  intros H Hr Hg. destruct b; cbn [wrap] in *; [|auto].
+  unfold discard in *. destruct X as [x|e|]; cbn [bind] in Hr.
+  - rewrite (H (Ok x) eq_refl) by discriminate. exact Hr.
+  - rewrite (H (Err e) eq_refl) by discriminate. exact Hr.
+  - subst r; exfalso; apply Hg; reflexivity.
+Qed.
+
+Lemma post_mono up X Y r :
+  (forall r', X = r' -> r' <> OutOfFuel -> Y = r') -> post up X = r -> r <> OutOfFuel -> post up Y = r.
+Proof.
+  intros H Hr Hg. destruct up; cbn [post] in *; [|auto].
+  destruct X as [x|e|]; cbn [bind] in Hr.
+  - rewrite (H (Ok x) eq_refl) by discriminate. exact Hr.
+  - rewrite (H (Err e) eq_refl) by discriminate. exact Hr.
+  - subst r; exfalso; apply Hg; reflexivity.
+Qed.
+
+Lemma spec_node_mono sup nb chain f f' :
+  (forall c body r, spec_body f sup nb chain c body = r -> r <> OutOfFuel -> spec_body f' sup nb chain c body = r) ->
+  forall n c r, spec_node sup nb chain (spec_body f sup nb chain) c n = r -> r <> OutOfFuel ->
+                spec_node sup nb chain (spec_body f' sup nb chain) c n = r.
+Proof.
+  intro IHf. induction n as [s|x|up|name req en body IHb|x items body IHb] using node_ind'; intros c r Hr Hg;
     cbn [spec_node] in *; try exact Hr.
-  - destruct (sc_cur c) as [cur|]; [|exact Hr].
+  - revert Hr Hg. apply post_mono. clear r. intros r Hr Hg.
+    destruct (sc_cur c) as [cur|]; [|exact Hr].
     destruct (first_def (sc_above cur) (sc_name cur)) as [[b ab]|]; [|exact Hr]. now apply IHf.
   - destruct (match first_def chain name with Some r0 => r0 | None => _ end) as [b ab].
     destruct (bd_required b); [exact Hr|]. now apply IHf.
-  - revert r Hr Hg. apply seq_res_mono. apply Forall_forall. intros v _.
-    apply seq_res_mono. rewrite Forall_forall in *. intros m Hm r Hr Hg. now apply (IHb m Hm).
+  - revert r Hr Hg. apply seq_res_mono. apply Forall_forall. intros v _ r Hr Hg. revert Hr Hg. apply wrap_mono.
+    apply seq_res_mono. rewrite Forall_forall in *. intros m Hm r' Hr Hg. now apply (IHb m Hm).
 Qed.
 
-Theorem spec_exec_mono chain : forall f f' c body r,
-  f <= f' -> spec_exec f chain c body = r -> r <> OutOfFuel -> spec_exec f' chain c body = r.
+Theorem spec_body_mono sup nb chain : forall f f' c body r,
+  f <= f' -> spec_body f sup nb chain c body = r -> r <> OutOfFuel -> spec_body f' sup nb chain c body = r.
 Proof.
   induction f as [|f IH]; intros f' c body r Hle Hr Hg; [cbn in Hr; subst r; exfalso; apply Hg; reflexivity|].
-  destruct f' as [|f']; [lia|]. cbn [spec_exec] in *. revert r Hr Hg.
-  apply seq_res_mono. apply Forall_forall. intros n _ r Hr Hg.
-  eapply (spec_node_mono chain f f'); [|exact Hr|exact Hg]. intros c' body' r' H1 H2. apply IH; [lia|exact H1|exact H2].
+  destruct f' as [|f']; [lia|]. cbn [spec_body] in *. revert Hr Hg. apply wrap_mono.
+  apply seq_res_mono. apply Forall_forall. intros n _ r' Hr Hg.
+  eapply (spec_node_mono sup nb chain f f'); [|exact Hr|exact Hg]. intros c' body' r'' H1 H2. apply IH; [lia|exact H1|exact H2].
 Qed.
 
-Theorem render_spec_mono f f' chain data r :
-  f <= f' -> render_spec f chain data = r -> r <> OutOfFuel -> render_spec f' chain data = r.
+Theorem spec_exec_mono sup nb chain : forall f f' c body r,
+  f <= f' -> spec_exec f sup nb chain c body = r -> r <> OutOfFuel -> spec_exec f' sup nb chain c body = r.
+Proof.
+  intros [|f] f' c body r Hle Hr Hg; [cbn in Hr; subst r; exfalso; apply Hg; reflexivity|].
+  destruct f' as [|f']; [lia|]. cbn [spec_exec] in *. revert r Hr Hg.
+  apply seq_res_mono. apply Forall_forall. intros n _ r Hr Hg.
+  eapply (spec_node_mono sup nb chain f f'); [|exact Hr|exact Hg]. intros c' body' r' H1 H2.
+  eapply spec_body_mono; [|exact H1|exact H2]. lia.
+Qed.
+
+Theorem render_spec_mono sup nb f f' chain data r :
+  f <= f' -> render_spec f sup nb chain data = r -> r <> OutOfFuel -> render_spec f' sup nb chain data = r.
 Proof.
   intros Hle Hr Hg. unfold render_spec in *. destruct chain as [|leaf parents]; [exact Hr|].
   destruct (negb (parse_ok leaf)); [exact Hr|].
   destruct parents as [|t1 parents].
   - destruct (template_bad leaf); [exact Hr|]. eapply spec_exec_mono; eauto.
-  - destruct (spec_exec f [] _ (fst (split_extends leaf))) as [a|e|] eqn:H1; cbn [bind] in Hr.
-    + rewrite (spec_exec_mono [] f f' _ _ (Ok a) Hle H1) by discriminate. cbn [bind].
+  - destruct (spec_exec f sup nb [] _ (fst (split_extends leaf))) as [a|e|] eqn:H1; cbn [bind] in Hr.
+    + rewrite (spec_exec_mono sup nb [] f f' _ _ (Ok a) Hle H1) by discriminate. cbn [bind].
       destruct (existsb template_bad _); [exact Hr|].
-      destruct (spec_exec f (leaf :: t1 :: parents) _ _) as [b|e|] eqn:H2; cbn [bind] in Hr.
-      * rewrite (spec_exec_mono _ f f' _ _ (Ok b) Hle H2) by discriminate. exact Hr.
-      * rewrite (spec_exec_mono _ f f' _ _ (Err e) Hle H2) by discriminate. exact Hr.
+      destruct (spec_exec f sup nb (leaf :: t1 :: parents) _ _) as [b|e|] eqn:H2; cbn [bind] in Hr.
+      * rewrite (spec_exec_mono sup nb _ f f' _ _ (Ok b) Hle H2) by discriminate. exact Hr.
+      * rewrite (spec_exec_mono sup nb _ f f' _ _ (Err e) Hle H2) by discriminate. exact Hr.
       * subst r; exfalso; apply Hg; reflexivity.
-    + rewrite (spec_exec_mono [] f f' _ _ (Err e) Hle H1) by discriminate. exact Hr.
+    + rewrite (spec_exec_mono sup nb [] f f' _ _ (Err e) Hle H1) by discriminate. exact Hr.
     + subst r; exfalso; apply Hg; reflexivity.
+Qed.
+
+(* ------------------------------------------- blank bodies never swallow a block: placeholders and overrides *)
+(* a node that is, or contains under loops, a block tag *)
+Fixpoint has_block (n : node) : bool :=
+  match n with
+  | Block _ _ _ _ => true
+  | For _ _ body => existsb has_block body
+  | _ => false
+  end.
+
+Lemma has_block_not_blank : forall n, has_block n = true -> node_blank n = false.
+Proof.
+  induction n as [s|x|up|name req en body IHb|x items body IHb] using node_ind'; cbn; try discriminate; [reflexivity|].
+  intro H. apply existsb_exists in H. destruct H as (m & Hin & Hm).
+  rewrite Forall_forall in IHb. specialize (IHb m Hin Hm).
+  destruct (forallb node_blank body) eqn:E; [|reflexivity].
+  rewrite forallb_forall in E. rewrite (E m Hin) in IHb. discriminate.
+Qed.
+
+(* a body in which a block tag occurs (directly or under loops) is never rendered into the null buffer *)
+Theorem block_never_blank sup body : existsb has_block body = true -> body_blank sup node_blank body = false.
+Proof.
+  intro H. apply existsb_exists in H. destruct H as (m & Hin & Hm). unfold body_blank.
+  destruct (forallb node_blank body) eqn:E; [|now rewrite andb_false_r].
+  rewrite forallb_forall in E. specialize (E m Hin). rewrite (has_block_not_blank m Hm) in E. discriminate.
+Qed.
+
+(* ... so a loop around a block tag renders every iteration of its body to the real buffer *)
+Corollary loop_around_block_kept sup L st jump c x v items body :
+  existsb has_block body = true -> (L <? c_s c) = false ->
+  exec_node sup node_blank L st jump c (For x (v :: items) body) =
+  seq_res (fun v => seq_res (exec_node sup node_blank L st jump
+                               {| c_env := (x, v) :: c_env c; c_s := S (c_s c); c_d := c_d c; c_block := c_block c |}) body)
+          (v :: items).
+Proof. intros Hb Hs. cbn [exec_node]. rewrite Hs, (block_never_blank sup body Hb). reflexivity. Qed.
+
+(* a reached block tag renders the most-derived definition; its own body (the default, the placeholder) plays no part *)
+Theorem override_rendered sup nb L st chain jump c name req en dflt b above :
+  (forall n, slookup n st = items_from chain n) ->
+  first_def chain name = Some (b, above) -> bd_required b = false -> (L <? c_d c) = false ->
+  exec_node sup nb L st jump c (Block name req en dflt) =
+  jump {| c_env := c_env c; c_s := 4; c_d := S (c_d c);
+          c_block := Some (HSite (c_env c) (c_s c) (c_d c) (items_from above name)) |} (bd_body b).
+Proof.
+  intros SC Hfd Hreq Hd. cbn [exec_node]. rewrite SC.
+  pose proof (first_def_items chain name) as H. rewrite Hfd in H. rewrite H.
+  cbn [item_of it_required it_body]. rewrite Hreq, Hd. reflexivity.
+Qed.
+
+(* end to end: a placeholder with ANY default as the only content of a loop in the root, overridden in the leaf by plain
+   content: every iteration renders the override *)
+Definition is_plain (n : node) : bool := match n with Text _ | Var _ => true | _ => false end.
+Definition plain_out (e : env) (body : list node) : str :=
+  concat_str (map (fun n => match n with Text s => s | Var y => show_var e y | _ => [] end) body).
+
+Lemma plain_no_blocks body : forallb is_plain body = true -> flat_map blocks_of_node body = [].
+Proof.
+  induction body as [|n r IH]; cbn; [reflexivity|]. rewrite andb_true_iff. intros [Hn Hr].
+  destruct n; cbn in *; try discriminate; auto.
+Qed.
+
+Lemma plain_endblock_ok body : forallb is_plain body = true -> forallb endblock_ok_node body = true.
+Proof.
+  induction body as [|n r IH]; cbn; [reflexivity|]. rewrite andb_true_iff. intros [Hn Hr].
+  destruct n; cbn in *; try discriminate; auto.
+Qed.
+
+Lemma plain_exec sup nb L st jump c body :
+  forallb is_plain body = true -> exec_nodes sup nb L st jump c body = Ok (plain_out (c_env c) body).
+Proof.
+  unfold exec_nodes, plain_out. induction body as [|n r IH]; cbn [forallb]; [reflexivity|].
+  rewrite andb_true_iff. intros [Hn Hr]. rewrite seq_res_cons, (IH Hr).
+  destruct n; cbn in *; try discriminate; reflexivity.
+Qed.
+
+Lemma seq_res_all_ok {A} (F : A -> res str) (G : A -> str) l :
+  (forall v, F v = Ok (G v)) -> seq_res F l = Ok (concat_str (map G l)).
+Proof.
+  intro H. induction l as [|v l IH]; [reflexivity|]. rewrite seq_res_cons, H, IH. reflexivity.
+Qed.
+
+Definition ph_leaf (root a : str) (ov : list node) : template := [TExtends root; TNode (Block a false None ov)].
+Definition ph_root (a x : str) (items : list Z) (dflt : list node) : template :=
+  [TNode (For x items [Block a false None dflt])].
+
+Theorem placeholder_in_loop fuel sup L ld rootn a x items dflt ov data :
+  alookup rootn ld = Some (ph_root a x items dflt) ->
+  parse_ok (ph_root a x items dflt) = true -> dup_bad (ph_root a x items dflt) = false ->
+  forallb is_plain ov = true -> 6 <= L ->
+  render_template (S (S (S fuel))) sup node_blank L ld data (ph_leaf rootn a ov) =
+  Ok (concat_str (map (fun v => if body_blank sup node_blank ov then [] else plain_out ((x, v) :: data) ov) items)).
+Proof.
+  intros Hl Hp Hd Hov HL.
+  set (leaf := ph_leaf rootn a ov). set (root := ph_root a x items dflt) in *.
+  assert (Hc : chain_from ld leaf [leaf; root]).
+  { eapply chain_step; [reflexivity | exact Hl | apply chain_root; reflexivity]. }
+  assert (Hbad : chain_bad [leaf; root] = false).
+  { unfold chain_bad. cbn [existsb tl]. rewrite Hd, Hp. unfold dup_bad, leaf, ph_leaf, tblocks. cbn.
+    rewrite (plain_no_blocks ov Hov). reflexivity. }
+  destruct (render_template_chain (S (S (S fuel))) sup node_blank L ld data leaf [leaf; root] []
+              Hc ltac:(simpl; lia) ltac:(lia) eq_refl) as [[Hb _]|[_ (st & SC & ->)]]; [congruence|].
+  destruct (L <? 5) eqn:E5; [lia|].
+  change (tnodes (last [leaf; root] leaf)) with [For x items [Block a false None dflt]].
+  cbn [exec]. unfold exec_nodes at 1. rewrite seq_res_cons. cbn [seq_res app].
+  destruct items as [|v0 items]; [reflexivity|].
+  rewrite loop_around_block_kept by (reflexivity || (cbn; lia)).
+  assert (Hfd : first_def [leaf; root] a = Some ({| bd_name := a; bd_required := false; bd_body := ov |}, [root])).
+  { cbn. unfold find_block, leaf, ph_leaf, tblocks. cbn. rewrite str_eqb_refl. reflexivity. }
+  assert (Hone : forall v, seq_res (exec_node sup node_blank L st (exec_body (S (S fuel)) sup node_blank L st)
+             {| c_env := (x, v) :: data; c_s := 7; c_d := 0; c_block := None |}) [Block a false None dflt]
+           = Ok (if body_blank sup node_blank ov then [] else plain_out ((x, v) :: data) ov)).
+  { intro v. rewrite seq_res_cons. cbn [seq_res].
+    rewrite (override_rendered sup node_blank L st [leaf; root] _ _ a false None dflt _ _ SC Hfd eq_refl)
+      by (cbn; destruct (L <? 0) eqn:E; [lia | reflexivity]).
+    cbn [exec_body bd_body]. rewrite (plain_exec _ _ _ _ _ _ ov Hov). cbn [c_env].
+    destruct (body_blank sup node_blank ov); cbn; now rewrite ?app_nil_r. }
+  cbn [c_env c_s c_d c_block].
+  rewrite (seq_res_all_ok _ _ (v0 :: items) Hone). cbn [bind]. now rewrite app_nil_r.
 Qed.
